@@ -108,6 +108,10 @@ class BatchBase(futures.FutureBase):
         self.set_error(error)
 
     def _compute(self):
+        if self._flushing:
+            # value() / error() of the batch asked while its flush body runs (by the body or by an
+            # on_computed subscriber of an item it has just set) must not run the body again.
+            raise BatchingError("Batch flush is already in progress.")
         self._try_switch_active_batch()
         # While the flush body runs the batch must not be flushed again, even if the body
         # re-enters the scheduler (see flush() and TaskScheduler._select_batch_to_flush()).
